@@ -48,6 +48,10 @@ SelectIdx(s, P(_)) == {i \in 1 .. Len(s) : P(s[i])}
 RECURSIVE SetToSortedSeq(_)
 SetToSortedSeq(S) == IF S = {} THEN <<>> ELSE LET m == SetMin(S) IN <<m>> \o SetToSortedSeq(S \ {m})
 
+\* some enumeration of a finite set as a sequence (deterministic for TLC)
+RECURSIVE SetToSeqAny(_)
+SetToSeqAny(S) == IF S = {} THEN <<>> ELSE LET x == CHOOSE y \in S : TRUE IN <<x>> \o SetToSeqAny(S \ {x})
+
 \* transitive closure of a relation given as a set of pairs
 RECURSIVE TC(_)
 TC(R) == LET R2 == R \cup {<<pq[1][1], pq[2][2]>> : pq \in {x \in R \X R : x[1][2] = x[2][1]}}
